@@ -32,6 +32,23 @@ def run_case(plan_factory, requests=(), decision="resume", *, fail_call=None, fa
             setup(lab)
         plan, devices = plan_factory(lab)
         obs.devices = devices
+        obs.plan_end = None
+
+        def recorder(gen):
+            try:
+                r = yield from gen
+            except GeneratorExit:
+                obs.plan_end = ("closed", None, lab.steps, len(lab.msgs), len(lab.docs))
+                raise
+            except BaseException as e:  # noqa
+                obs.plan_end = ("raised", e, lab.steps, len(lab.msgs), len(lab.docs))
+                raise
+            obs.plan_end = ("return", r, lab.steps, len(lab.msgs), len(lab.docs))
+            return r
+
+        from bluesky.utils import ensure_generator
+
+        plan = recorder(ensure_generator(plan))
         lab.fail_call, lab.fail_status = fail_call, fail_status
         pending = [dict(r) for r in requests if r.get("phase", "run") == "run"]
         paused_reqs = [dict(r) for r in requests if r.get("phase") == "paused"]
@@ -92,6 +109,7 @@ def run_case(plan_factory, requests=(), decision="resume", *, fail_call=None, fa
         obs.msgs, obs.msg_meta = list(lab.msgs), msg_meta
         obs.docs, obs.doc_meta = list(lab.docs), doc_meta
         obs.trans = list(lab.trans)
+        obs.trans_meta = list(lab.trans_meta)
         obs.ledger = list(lab.ledger)
         obs.steps = lab.steps
         obs.tasks_unresolved = [r for r in obs.reqs if isinstance(r.get("out"), tuple) and r["out"][0] == "task"]
